@@ -49,7 +49,9 @@ theorem loadFrom_eq (acc rest : Table α) :
           List.not_mem_nil, or_false, not_or, List.nodup_cons, List.mem_map, forall_eq_or_imp]
         constructor
         · rintro ⟨h1, h2⟩
-          refine ⟨⟨?_, h1⟩, hn, fun m hm => (h2 m hm).1⟩
+          have hn' := hn
+          simp only [names, List.mem_map] at hn'
+          refine ⟨⟨?_, h1⟩, hn', fun m hm => (h2 m hm).1⟩
           rintro ⟨x, hx, hxn⟩
           exact (h2 n ⟨x, hx, hxn⟩).2 rfl
         · rintro ⟨⟨h0, h1⟩, _, h2⟩
@@ -63,7 +65,9 @@ theorem loadFrom_eq (acc rest : Table α) :
 theorem load_eq (ts : Table α) : load ts = if (names ts).Nodup then .ok ts else .error .duplicate := by
   unfold load
   rw [loadFrom_eq]
-  simp [names]
+  by_cases h : (names ts).Nodup
+  · rw [if_pos h, if_pos ⟨h, by simp [names]⟩]; simp
+  · rw [if_neg h, if_neg (fun h' => h h'.1)]
 
 /-! ## the closure invariant -/
 
@@ -386,7 +390,7 @@ theorem closureLoop_spec {ts : Table α} {req : List α} (g : Graph α) (st : Li
     exfalso
     exact hc ⟨h.ready.1, (h.fedge d n List.mem_cons_self).1⟩
   | case4 g n p st hl =>
-    refine ⟨fun g' hg' => by cases hg', ?_⟩
+    refine ⟨fun g' hg' => (by cases hg'), ?_⟩
     intro e he
     cases he
     refine ⟨?_, n, h.freach n p List.mem_cons_self, hl⟩
